@@ -87,7 +87,11 @@ func (g *XSyn) Expr(depth int) string {
 	case 15:
 		return "func(" + g.params() + ") " + fw.Pick(r, []string{"", "int ", "(int, error) ", "(r int) "}) + g.Block(d)
 	case 16:
-		return g.typ() + "(" + g.Expr(d) + ")"
+		t := g.typ()
+		if strings.HasPrefix(t, "func") || strings.Contains(t, "chan") || strings.HasPrefix(t, "*") {
+			t = "(" + t + ")" // conversions to such types need parentheses (as gofmt prints them)
+		}
+		return t + "(" + g.Expr(d) + ")"
 	case 17:
 		return "[]" + fw.Pick(r, []string{"int", "T"}) + "{" + fw.Pick(r, []string{"0: " + g.Expr(d), "{}", g.Expr(d)}) + "}"
 	case 18:
